@@ -146,7 +146,7 @@ class Judge:
 def run(ctx: Ctx) -> None:
     part = ctx.cfg.get("part") or ctx.ch.pick(["store", "frame"], "part")
     SimRng(ctx, mode="uniform").install()
-    serving = bool(ctx.ch.draw(4, "backend0")) and st.bindings_installed()
+    serving = bool(ctx.ch.draw(6, "backend0")) and st.bindings_installed()
     st.set_backend(serving)
     ctx.log("start", part, f"faults={bool(ctx.cfg.get('faults'))}", f"bindings={serving}")
     old = signal.signal(signal.SIGVTALRM, _on_vtalrm)
@@ -261,7 +261,7 @@ def _consume(ctx: Ctx, j: Judge, codec: go.Codec, obj: Any, cv: bool, fault: str
     if name in ("Tx", "Block"):
         j.call(f"{name}.size/{fault}", lambda: (obj.size, obj.weight, obj.vsize))
     if name in ("Tx", "Block", "BlockHeader"):
-        j.call(f"{name}.hash/{fault}", lambda: obj.hash)
+        j.call(f"{name}.hash/{fault}", lambda: (obj.id, obj.hash) if name == "Tx" else obj.header.hash if name == "Block" else obj.hash)
     if name == "Psbt":
         j.call(f"Psbt.unique_id/{fault}", lambda: obj.unique_id)
     if name == "Tx" and obj.vin and len(obj.vin) <= 8:
@@ -675,8 +675,8 @@ def _frame(ctx: Ctx, j: Judge) -> None:
             framed = pg.envelope(magic, s.message.command, payload)
             stream = io.BytesIO(framed + wire[:ch.draw(30, "hostile.ntail")])
             ok, msg = j.call("Message.parse/" + fault, lambda: Message.parse(stream))
-            for prop, inv in ((P5, "position-after-message"), (P19, "no-over-read")):
-                j.check(prop, inv, ok and stream.tell() == len(framed), lambda: f"a well-framed message of {len(framed)} octets: {msg!r}, stream left at {stream.tell()}", "Message.parse/" + fault)
+            j.check(P5, "position-after-message", ok and stream.tell() == len(framed), lambda: f"a well-framed message of {len(framed)} octets: {msg!r}, stream left at {stream.tell()}", "Message.parse/" + fault)
+            j.check(P19, "no-over-read", not ok or stream.tell() == len(framed), lambda: f"a message of {len(framed)} octets, stream left at {stream.tell()}", "Message.parse/" + fault)
             if ok:
                 _dispatch(ctx, j, msg, fault)
 
